@@ -215,12 +215,14 @@ deriving Repr, Inhabited
 def mkDict (pairs : List (String × PVal)) : Dict PVal :=
   pairs.foldl (fun d p => Dict.set d p.1 p.2) []
 
+/-- `acc + x`: only a list can be added to a list -/
+def appendList (acc : List PVal) : PVal → Except Err (List PVal)
+  | .list xs => .ok (acc ++ xs)
+  | _ => .error .typeError
+
 /-- `sum(v, [])` -/
 def pySumLists : PVal → Except Err PVal
-  | .list l =>
-    (l.foldlM (fun acc x => match x with
-      | PVal.list xs => Except.ok (acc ++ xs)
-      | _ => Except.error Err.typeError) []).map PVal.list
+  | .list l => (l.foldlM appendList []).map PVal.list
   | .str s => if s.isEmpty then .ok (.list []) else .error .typeError
   | .dict kvs => if kvs.isEmpty then .ok (.list []) else .error .typeError
   | _ => .error .typeError
@@ -386,10 +388,14 @@ def decodeKvs : List (String × JVal) → Except Err (List (String × PVal))
   | (k, v) :: rest => (decode v).bind fun v' => (decodeKvs rest).map ((k, v') :: ·)
 end
 
+def PVal.cell? : PVal → Option JCell
+  | .cell c => some c
+  | _ => none
+
 /-- `Triangle(cells)` on whatever the decoder returned -/
 def triangleOf : PVal → Except Err (List JCell)
   | .list l =>
-    match l.mapM (fun | PVal.cell c => some c | _ => none) with
+    match l.mapM PVal.cell? with
     | some cells => ofJCells cells
     | none => .error .triangleError
   | .dict kvs => if kvs.isEmpty then .ok [] else .error .triangleError
